@@ -183,12 +183,14 @@ theorem driver_runs_are_executions {s0 : St} (cfg : Cfg) (plan : Plan) (env : Na
 def exClaim : Claim := ⟨1, none, false, false, false⟩
 def exStore : St :=
   { claim := some exClaim, hist := [exClaim],
-    xrs := fun n => if n = "x-a" then some ⟨2, some .other, false, true, false, true⟩
-                    else if n = "x-b" then some ⟨3, none, false, false, false, false⟩ else none,
+    xrs := fun n => if n = "x-a" then some ⟨2, some .other, false, true, false, true, 0⟩
+                    else if n = "x-b" then some ⟨3, none, false, false, false, false, 0⟩ else none,
+    xhist := fun n => [if n = "x-a" then some ⟨2, some .other, false, true, false, true, 0⟩
+                       else if n = "x-b" then some ⟨3, none, false, false, false, false, 0⟩ else none],
     nextRv := 10, trace := [] }
 
 example : Init exStore := by
-  refine Init.single (c := exClaim) rfl rfl (by decide) rfl ?_
+  refine Init.single (c := exClaim) rfl rfl (by decide) rfl ?_ (fun n => rfl)
   intro n ⟨x, hx, hc⟩
   simp only [exStore] at hx
   split at hx
@@ -201,7 +203,7 @@ example : Init exStore := by
 foreign XR: get claim, add finalizer, Get x-a (taken), Get c-1 (free), update claim, apply -/
 def exRun : Sys :=
   stepOk (stepOk (stepOk (stepOk (stepOk (stepOk
-    ⟨exStore, some (reconcile { ssa := true, pick := none, cands := ["x-a", "c-1"], up := none })⟩)))))
+    ⟨exStore, some (reconcile { ssa := true, pick := none, xpick := fun _ => none, cands := ["x-a", "c-1"], up := none })⟩)))))
 
 example : Reach exStore exRun :=
   stepOk_reach (stepOk_reach (stepOk_reach (stepOk_reach (stepOk_reach (stepOk_reach
